@@ -50,8 +50,8 @@ _tlc_counter = [0]
 
 
 def tlc(module, cfg, env=None, workers=1, timeout=900, extra=None, heap="2g", simulate=None):
-    _tlc_counter[0] += 1
-    meta = os.path.join(WORK, "tlc", "%s-%d-%d" % (module, os.getpid(), _tlc_counter[0]))
+    import uuid
+    meta = os.path.join(WORK, "tlc", "%s-%d-%s" % (module, os.getpid(), uuid.uuid4().hex[:12]))
     os.makedirs(meta, exist_ok=True)
     # short single-worker runs (trace validation, generators): C1 only and 2 GC threads cut the CPU cost by 3x, which matters
     # because up to 16 of these JVMs run side by side
@@ -266,10 +266,18 @@ def validate_shard(args):
     return res
 
 
+def validate_shard_retry(args):
+    r = validate_shard(args)
+    if r["status"] == "error":
+        # a JVM that died for an external reason (memory pressure, ...) is retried once; a genuine TLC error repeats
+        r = validate_shard(args)
+    return r
+
+
 def validate(shards, declfile, module="RegisterTrace", cfg="RegisterTrace.cfg", extra_env=None):
     jobs = [(module, cfg, s, declfile, extra_env) for s in shards]
     with concurrent.futures.ThreadPoolExecutor(max_workers=JOBS) as ex:
-        results = list(ex.map(validate_shard, jobs))
+        results = list(ex.map(validate_shard_retry, jobs))
     for r in results:
         if r["status"] == "error":
             raise ToolError("TLC failed on %s:\n%s" % (r["shard"], r["detail"]))
